@@ -44,10 +44,13 @@ def _eval(arg):
     # probability with which random_components draws a component tuple: one uniform draw per index, the ranges of the source-combination draws depend on
     # the permutation drawn first (so tuples under different permutations can have different probabilities)
     weight = {}
+    # the one-to-one case (one source-combination index per crossing combination) needs a crossing without complex factors (fix 2bb5226, D39); read from the
+    # enumerator so that this mirror follows the code
+    one_to_one = getattr(en, "_UCSolutionEnumerator__complex_crossing_instances", 1) == 1
 
     def all_components(shape, trial_count, lo_flag):
         for cpi in range(shape.crossings_shape):
-            if trial_count == n_inst and en._crossing_is_unweighted:
+            if trial_count == n_inst and en._crossing_is_unweighted and one_to_one:
                 src_ranges = [range(n) for n in shape.combinations_shapes]
             else:
                 perm = en.jth_permutation_indices(n_inst, cs if lo_flag == 0 else lo_flag, cpi, en._pmemo if lo_flag == 0 else en._leftover_pmemo)
